@@ -157,3 +157,71 @@ package protocol
 //@   ensures [C05 latin1] smppok(3, c) ==> latin1dok(smppenc(3, c)) && latin1dec(smppenc(3, c)) == c
 //@   ensures [C05 ucs2] smppok(8, c) ==> ucs2dok(smppenc(8, c)) && ucs2dec(smppenc(8, c)) == c
 //@   ensures [C05 gsm7] smppok(0, c) ==> gsmdok(smppenc(0, c)) && gsmdec(smppenc(0, c)) == c
+
+// ---------------------------------------------------------------- batch encoder (C09): the sequential components
+// Build itself (map iteration over the candidate set, one goroutine per candidate, lo.Filter, sort.Sort) is outside the
+// verifier's subset; it is covered by a BOUNDED check (see DESIGN.md section 9, C09). Proved here, for all inputs: the
+// two comparators, their lexicographic composition in Less, the per-candidate encoder Run and the accessor Result.
+// isdc(m): m holds one of the two coding types; dcprio(m): its priority (smaller wins a tie).
+
+//@ func byLength
+//@   props C09
+//@   requires p != nil && q != nil
+//@   ensures [C09 parts] result <==> len(p.data) < len(q.data)
+
+//@ func byDataCoding
+//@   props C09
+//@   requires p != nil && q != nil
+//@   requires typeIs(p.msgFmt, "datacoding.CMPPDataCoding") || typeIs(p.msgFmt, "datacoding.SMPPDataCoding")
+//@   requires typeIs(q.msgFmt, "datacoding.CMPPDataCoding") || typeIs(q.msgFmt, "datacoding.SMPPDataCoding")
+//@   ensures [C09 priority] result <==> (typeIs(p.msgFmt, "datacoding.CMPPDataCoding") ? datacoding.cmppprio(dynint(p.msgFmt)) : datacoding.smppprio(dynint(p.msgFmt))) < (typeIs(q.msgFmt, "datacoding.CMPPDataCoding") ? datacoding.cmppprio(dynint(q.msgFmt)) : datacoding.smppprio(dynint(q.msgFmt)))
+
+// Less: with the comparator list (byLength, byDataCoding) it is the lexicographic order "fewer parts first, then the
+// smaller priority value" - irreflexive and, by datacoding.priorities_distinct, total on candidates of one protocol.
+//@ func (b *batchEncoderSorter) Less
+//@   props C09
+//@   requires b != nil && 0 <= i && i < len(b.encoders) && 0 <= j && j < len(b.encoders)
+//@   requires b.encoders[i] != nil && b.encoders[j] != nil
+//@   requires typeIs(b.encoders[i].msgFmt, "datacoding.CMPPDataCoding") || typeIs(b.encoders[i].msgFmt, "datacoding.SMPPDataCoding")
+//@   requires typeIs(b.encoders[j].msgFmt, "datacoding.CMPPDataCoding") || typeIs(b.encoders[j].msgFmt, "datacoding.SMPPDataCoding")
+//@   requires len(b.compareFuncs) == 2 && b.compareFuncs[0] == byLength && b.compareFuncs[1] == byDataCoding
+//@   ensures [C09 lexicographic] result <==> (len(b.encoders[i].data) < len(b.encoders[j].data) || (len(b.encoders[i].data) == len(b.encoders[j].data) && (typeIs(b.encoders[i].msgFmt, "datacoding.CMPPDataCoding") ? datacoding.cmppprio(dynint(b.encoders[i].msgFmt)) : datacoding.smppprio(dynint(b.encoders[i].msgFmt))) < (typeIs(b.encoders[j].msgFmt, "datacoding.CMPPDataCoding") ? datacoding.cmppprio(dynint(b.encoders[j].msgFmt)) : datacoding.smppprio(dynint(b.encoders[j].msgFmt)))))
+//@   loop 1
+//@     invariant 0 <= idx && idx <= 1
+//@     invariant idx == 1 ==> len(b.encoders[i].data) == len(b.encoders[j].data)
+//@     decreases 1 - idx
+
+// Run: the outcome for ONE candidate coding is a function of (protocol, coding, content, frame key) only - the same
+// spec functions as the single-coding entry points above - and it writes nothing but its own three result members
+// (which is what makes the per-candidate goroutines of Build independent of one another).
+// Candidates whose type does not belong to the selected protocol are outside the contract (the property says so).
+//@ func (s *encoder) Run
+//@   props C09
+//@   requires s != nil
+//@   requires s.protocol == "SMPP" ==> typeIs(s.msgFmt, "datacoding.SMPPDataCoding")
+//@   requires s.protocol == "CMPP" ==> typeIs(s.msgFmt, "datacoding.CMPPDataCoding")
+//@   modifies s.canEncode, s.reason, s.data
+//@   ensures [C09 other] s.protocol != "SMPP" && s.protocol != "CMPP" ==> !s.canEncode
+//@   ensures [C09 cmpp.can] s.protocol == "CMPP" ==> (s.canEncode <==> (cmppvalid(dynint(s.msgFmt)) && cmppok(dynint(s.msgFmt), s.content) && (len(cmppenc(dynint(s.msgFmt), s.content)) + 133) / 134 <= 255))
+//@   ensures [C09 cmpp.single] s.protocol == "CMPP" && s.canEncode && len(cmppenc(dynint(s.msgFmt), s.content)) <= 140 ==> len(s.data) == 1 && s.data[0] == cmppenc(dynint(s.msgFmt), s.content)
+//@   ensures [C09 cmpp.multi] s.protocol == "CMPP" && s.canEncode && len(cmppenc(dynint(s.msgFmt), s.content)) > 140 ==> len(s.data) == (len(cmppenc(dynint(s.msgFmt), s.content)) + 133) / 134 && partsOf(s.data, cmppenc(dynint(s.msgFmt), s.content), int(s.frameKey), 134)
+//@   ensures [C09 smpp.can] s.protocol == "SMPP" && dynint(s.msgFmt) != 99 ==> (s.canEncode <==> (smppvalid(dynint(s.msgFmt)) && smppok(dynint(s.msgFmt), s.content) && (len(smppenc(dynint(s.msgFmt), s.content)) + smppper(dynint(s.msgFmt)) - 1) / smppper(dynint(s.msgFmt)) <= 255))
+//@   ensures [C09 smpp.single] s.protocol == "SMPP" && dynint(s.msgFmt) != 99 && s.canEncode && len(smppenc(dynint(s.msgFmt), s.content)) <= smppmax(dynint(s.msgFmt)) ==> len(s.data) == 1 && s.data[0] == smppenc(dynint(s.msgFmt), s.content)
+//@   ensures [C09 smpp.multi134] s.protocol == "SMPP" && dynint(s.msgFmt) != 99 && dynint(s.msgFmt) != 0 && s.canEncode && len(smppenc(dynint(s.msgFmt), s.content)) > 140 ==> len(s.data) == (len(smppenc(dynint(s.msgFmt), s.content)) + 133) / 134 && partsOf(s.data, smppenc(dynint(s.msgFmt), s.content), int(s.frameKey), 134)
+//@   ensures [C09 smpp.multi153] s.protocol == "SMPP" && dynint(s.msgFmt) == 0 && s.canEncode && len(gsmenc(s.content)) > 160 ==> len(s.data) == (len(gsmenc(s.content)) + 152) / 153 && partsOf(s.data, gsmenc(s.content), int(s.frameKey), 153)
+//@   ensures [C09 packed.can] s.protocol == "SMPP" && dynint(s.msgFmt) == 99 ==> (s.canEncode <==> (gsmvalid(s.content) && gsmencodable(s.content) && (len(gsmseptets(s.content)) <= 160 || cuts(gsmseptets(s.content), 0) <= 255)))
+//@   ensures [C09 packed.single] s.protocol == "SMPP" && dynint(s.msgFmt) == 99 && s.canEncode && len(gsmseptets(s.content)) <= 160 ==> len(s.data) == 1 && s.data[0] == packimg(gsmseptets(s.content))
+//@   ensures [C09 packed.count] s.protocol == "SMPP" && dynint(s.msgFmt) == 99 && s.canEncode && len(gsmseptets(s.content)) > 160 ==> len(s.data) == cuts(gsmseptets(s.content), 0)
+
+//@ func (s *encoder) Result
+//@   props C09
+//@   ensures [C09 nil] s == nil ==> err != nil && len(contents) == 0
+//@   ensures [C09 failed] s != nil && !s.canEncode ==> err != nil && len(contents) == 0
+//@   ensures [C09 ok] s != nil && s.canEncode ==> err == nil && actualMsgFmt == s.msgFmt && len(contents) == len(s.data) && (forall k int :: 0 <= k && k < len(contents) ==> contents[k] == s.data[k])
+
+// Build: ASSUMED contract (`trusted`: the body is not verified - map iteration over interface keys, closures,
+// goroutines, lo.Filter and sort.Sort are outside the verifier's subset). It is exercised by the bounded stand-in
+// TestValidator_BUILD on every run of the C09 check; nothing about Build is counted as proved.
+//@ func (b *BatchDataCodingEncoder) Build
+//@   props C09
+//@   trusted
